@@ -349,12 +349,7 @@ pub fn run_once(s: &Scenario, scratch: &Path) -> Result<RunResult, String> {
     }
     // what a preprocessed copy must look like, per distinct preprocessor content
     let mut expected_pre = BTreeMap::new();
-    let mut chain: Vec<&BuildNode> = Vec::new();
-    let mut cur = Some(&s.root);
-    while let Some(n) = cur {
-        chain.push(n);
-        cur = n.steps.iter().find_map(|st| if let Step::Rebuild(b) = st { Some(&**b) } else { None });
-    }
+    let chain: Vec<&BuildNode> = chain_of(s);
     for n in &chain {
         if let Some(content) = &n.cfg.preprocessor {
             let model = scratch.join("model-copy");
@@ -367,6 +362,10 @@ pub fn run_once(s: &Scenario, scratch: &Path) -> Result<RunResult, String> {
             let _ = std::fs::remove_dir_all(&model);
         }
     }
+    // a different current directory with a decoy of the same relative shape
+    let elsewhere = scratch.join("elsewhere");
+    std::fs::create_dir_all(elsewhere.join("fixtures/app")).map_err(io)?;
+    std::fs::write(elsewhere.join("fixtures/app/DECOY"), "not the fixture").map_err(io)?;
     let fixture_digest_before = dir_digest(&fixture);
     let scen_path = scratch.join("scenario.json");
     std::fs::write(&scen_path, serde_json::to_string(s).map_err(|e| e.to_string())?).map_err(io)?;
@@ -406,7 +405,7 @@ pub fn run_once(s: &Scenario, scratch: &Path) -> Result<RunResult, String> {
         .env("CARGO_MANIFEST_DIR", &krate)
         .env("VERIF_STUB_DIR", &stub)
         .env("RUST_BACKTRACE", "0")
-        .current_dir(&krate)
+        .current_dir(if s.cwd_elsewhere { &elsewhere } else { &krate })
         .stdin(Stdio::null());
     // a scenario that does not end is killed (exit status None: judged as ended abnormally)
     let (out, _killed) = crate::pool::output_limited(&mut cmd).map_err(|e| format!("spawn simtest: {e}"))?;
@@ -475,14 +474,21 @@ pub fn judge_c16(s: &Scenario, r: &RunResult) -> Vec<String> {
         v.push("the fixture app directory was modified".into());
     }
     // per-resource ordering: force-removed exactly once, after the last use
-    let removal = |e: &LogEntry| e.prog == "docker" && matches!(e.argv.first().map(String::as_str), Some("rm" | "rmi" | "volume"));
+    let removal = |e: &LogEntry| {
+        e.prog == "docker"
+            && match e.argv.first().map(String::as_str) {
+                Some("rm" | "rmi") => true,
+                Some("volume") => matches!(e.argv.get(1).map(String::as_str), Some("rm" | "remove")),
+                _ => false,
+            }
+    };
     for e in r.log.iter().filter(|e| removal(e)) {
         if !e.argv.iter().any(|a| a == "--force") {
             v.push(format!("removal without --force: docker {:?}", e.argv));
         }
     }
     let mut containers: Vec<String> = Vec::new();
-    let mut image: Option<String> = None;
+    let mut images: Vec<String> = Vec::new();
     let mut volumes: Vec<String> = Vec::new();
     for e in &r.log {
         if e.prog == "docker" && e.argv.first().map(String::as_str) == Some("run") {
@@ -494,7 +500,9 @@ pub fn judge_c16(s: &Scenario, r: &RunResult) -> Vec<String> {
         }
         if e.prog == "pack" && e.argv.first().map(String::as_str) == Some("build") {
             if let Ok(p) = parse_pack_build(&e.argv[1..]) {
-                image.get_or_insert(p.image.clone());
+                if !images.contains(&p.image) {
+                    images.push(p.image.clone());
+                }
                 for c in p.caches {
                     if let Some(n) = c.split("name=").nth(1) {
                         if !volumes.contains(&n.to_string()) {
@@ -528,7 +536,7 @@ pub fn judge_c16(s: &Scenario, r: &RunResult) -> Vec<String> {
     for c in &containers {
         check("container", c, &["rm"]);
     }
-    if let Some(i) = &image {
+    for i in &images {
         check("image", i, &["rmi"]);
     }
     for vol in &volumes {
@@ -537,12 +545,21 @@ pub fn judge_c16(s: &Scenario, r: &RunResult) -> Vec<String> {
     v
 }
 
+/// All build configurations of the scenario in execution order: each root followed by its
+/// rebuilds, root after root.
 fn chain_of(s: &Scenario) -> Vec<&BuildNode> {
-    let mut chain: Vec<&BuildNode> = Vec::new();
-    let mut cur = Some(&s.root);
-    while let Some(n) = cur {
-        chain.push(n);
-        cur = n.steps.iter().find_map(|st| if let Step::Rebuild(b) = st { Some(&**b) } else { None });
+    chain_with_roots(s).into_iter().map(|(n, _)| n).collect()
+}
+
+/// ... together with the index of the root (independent build, own image) each belongs to.
+fn chain_with_roots(s: &Scenario) -> Vec<(&BuildNode, usize)> {
+    let mut chain: Vec<(&BuildNode, usize)> = Vec::new();
+    for (ri, root) in std::iter::once(&s.root).chain(s.more_roots.iter()).enumerate() {
+        let mut cur = Some(root);
+        while let Some(n) = cur {
+            chain.push((n, ri));
+            cur = n.steps.iter().find_map(|st| if let Step::Rebuild(b) = st { Some(&**b) } else { None });
+        }
     }
     chain
 }
@@ -558,7 +575,10 @@ pub fn judge_c17(s: &Scenario, r: &RunResult) -> Vec<String> {
     if builds.len() > chain.len() {
         v.push(format!("{} pack build invocations for {} build configurations", builds.len(), chain.len()));
     }
-    let mut image0: Option<String> = None;
+    let roots: Vec<usize> = chain_with_roots(s).into_iter().map(|(_, ri)| ri).collect();
+    let mut images: Vec<Option<String>> = vec![None; 1 + s.more_roots.len()];
+    // a root whose first build never reached pack ends the test process: later pack builds
+    // belong to the configurations in order
     for (bi, e) in builds.iter().enumerate() {
         let Some(node) = chain.get(bi) else { break };
         let c = &node.cfg;
@@ -569,7 +589,7 @@ pub fn judge_c17(s: &Scenario, r: &RunResult) -> Vec<String> {
                 continue;
             }
         };
-        let img = image0.get_or_insert(p.image.clone()).clone();
+        let img = images[roots[bi]].get_or_insert(p.image.clone()).clone();
         if p.image != img || !p.image.starts_with("libcnbtest_") {
             v.push(format!("pack build #{bi}: image {:?} (first build used {:?})", p.image, img));
         }
@@ -676,15 +696,18 @@ pub fn judge_c17(s: &Scenario, r: &RunResult) -> Vec<String> {
                 continue;
             }
         };
-        if Some(&d.image) != image0.as_ref() {
-            v.push(format!("docker run: image {:?}, the build produced {:?}", d.image, image0));
+        if !images.iter().flatten().any(|i| *i == d.image) {
+            v.push(format!("docker run: image {:?}, the builds produced {:?}", d.image, images));
         }
         if d.detach {
-            let Some((cfg, _)) = want_runs.get(di) else {
+            let Some((cfg, bi)) = want_runs.get(di) else {
                 v.push("more detached docker run invocations than start_container calls".into());
                 break;
             };
             di += 1;
+            if images.get(roots[*bi]).and_then(Option::as_ref) != Some(&d.image) {
+                v.push(format!("docker run: container of build configuration #{bi} started from image {:?}, its build produced {:?}", d.image, images.get(roots[*bi])));
+            }
             let want_entry: Vec<String> = cfg.entrypoint.iter().cloned().collect();
             if d.entrypoint != want_entry {
                 v.push(format!("docker run: entrypoint {:?}, configured {:?}", d.entrypoint, cfg.entrypoint));
@@ -887,6 +910,7 @@ fn simplify(s: &Scenario) -> Vec<Scenario> {
                         v.push(c);
                     }
                     let plain = ContainerCfg {
+                        env_style: 0,
                         entrypoint: None,
                         command: None,
                         env: vec![],
